@@ -274,6 +274,9 @@ func checkC08(c *Ctx) {
 	checkExpirySelection(c, "C08.3", 5)
 	checkTimeoutWriters(c, "C08.3", owner)
 	checkSweepAlwaysRuns(c, "C08.3")
+	// ---- C08.10 "never early": nothing but the expiry sweep takes a registration out of the tables (a cap that evicts,
+	// a replacement that drops the old entry) - shared with C09.14
+	checkTableDeletes(c, "C08.10")
 
 	checkRemovalUnconditional(c, "C08.7")
 	checkExpiryClock(c, "C08.8")
